@@ -72,7 +72,7 @@ static void make_pki(void)
     tc_A = strdup(rootA->cert_pem); tc_B = strdup(rootB->cert_pem);
 }
 
-struct policy { bool auth, check_time, check_crl, verify_name, crl_expired; int trust; /* 0 root-A, 1 root-B */ bool names_from_addr; bool extra_names; };
+struct policy { bool auth, check_time, check_crl, verify_name, crl_expired; int trust; /* 0 root-A, 1 root-B */ bool names_from_addr; bool extra_names; bool explicit_mismatch; /* explicit names matching no certificate, while the address is the certificate's DNS name */ };
 struct side { struct policy p; enum kind cred; bool by_value; bool tls_client_role; };
 
 static bool root_is_B(enum kind k) { return k == K_UNTRUSTED || k == K_VIA_UNTRUSTED_INTER; }
@@ -90,7 +90,7 @@ static bool admits(const struct policy *x, enum kind y, bool y_is_tls_server, ch
     }
     if (y == K_EKU_SERVER_ONLY && !y_is_tls_server) { snprintf(why, cap, "extended key usage serverAuth only, peer acts as TLS client"); return false; }
     if (y == K_EKU_CLIENT_ONLY && y_is_tls_server) { snprintf(why, cap, "extended key usage clientAuth only, peer acts as TLS server"); return false; }
-    if (x->verify_name && y == K_WRONGNAME) { snprintf(why, cap, "no expected name matches"); return false; }
+    if (x->verify_name && (y == K_WRONGNAME || x->explicit_mismatch)) { snprintf(why, cap, x->explicit_mismatch ? "the explicit tls.peer_names (which override the address host name) match no name of the certificate" : "no expected name matches"); return false; }
     snprintf(why, cap, "admissible");
     return true;
 }
@@ -127,7 +127,8 @@ static void fill_map(struct xcm_attr_map *m, const struct side *s, const char *d
         xcm_attr_map_add_bool(m, "tls.check_time", s->p.check_time);
         xcm_attr_map_add_bool(m, "tls.check_crl", s->p.check_crl);
         xcm_attr_map_add_bool(m, "tls.verify_peer_name", s->p.verify_name);
-        if (s->p.verify_name && !(s->p.names_from_addr && !is_server_side)) xcm_attr_map_add_str(m, "tls.peer_names", s->p.extra_names ? "nomatch.verif.test:peer.verif.test:also-not.verif.test" : "peer.verif.test");
+        if (s->p.verify_name && s->p.explicit_mismatch && !is_server_side) xcm_attr_map_add_str(m, "tls.peer_names", "nomatch.verif.test:also-not.verif.test");
+        else if (s->p.verify_name && !(s->p.names_from_addr && !is_server_side)) xcm_attr_map_add_str(m, "tls.peer_names", s->p.extra_names ? "nomatch.verif.test:peer.verif.test:also-not.verif.test" : "peer.verif.test");
         if (reversed) xcm_attr_map_add_bool(m, "tls.client", is_server_side);
     }
 }
@@ -154,13 +155,14 @@ static void gen_case(struct ccase *c, long idx, vrng *r)
     else if (vrnd_p(r, 50)) c->c.cred = K_OK;
     c->c.by_value = vrnd_p(r, 50); c->s.by_value = vrnd_p(r, 50);
     c->c.p.names_from_addr = c->c.p.verify_name && vrnd_p(r, 40);
+    if (c->c.p.verify_name && !c->c.p.names_from_addr && vrnd_p(r, 30)) c->c.p.explicit_mismatch = true;
     c->server_policy_where = (int)vrnd_n(r, 3);
     c->reversed = vrnd_p(r, 15);
     c->c.tls_client_role = !c->reversed; c->s.tls_client_role = c->reversed;
     if ((gi % 23) == 22) { c->invalid = true; c->invalid_kind = (int)vrnd_n(r, 5); }
 }
 
-static void pol_str(const struct policy *p, char *b, size_t cap) { snprintf(b, cap, "auth=%d time=%d crl=%d%s name=%d%s trust=%c", p->auth, p->check_time, p->check_crl, p->crl_expired ? "(expired)" : "", p->verify_name, p->names_from_addr ? "(addr)" : "", p->trust ? 'B' : 'A'); }
+static void pol_str(const struct policy *p, char *b, size_t cap) { snprintf(b, cap, "auth=%d time=%d crl=%d%s name=%d%s trust=%c", p->auth, p->check_time, p->check_crl, p->crl_expired ? "(expired)" : "", p->verify_name, p->names_from_addr ? "(addr)" : p->explicit_mismatch ? "(explicit-mismatch,dns-addr)" : "", p->trust ? 'B' : 'A'); }
 
 static void one_case(long idx, void *arg)
 {
@@ -239,7 +241,7 @@ static void one_case(long idx, void *arg)
       if (!sv) { vobs("server_creation_failed", 1); VLOG("server_a failed: %s", strerror(se)); goto out; } }
     port = atoi(strrchr(xcm_local_addr(sv), ':') + 1);
     char caddr[96];
-    if (c.c.p.names_from_addr) {
+    if (c.c.p.names_from_addr || c.c.p.explicit_mismatch) {
         struct vdns_plan dp; memset(&dp, 0, sizeof dp); snprintf(dp.name, sizeof dp.name, "peer.verif.test"); dp.deliver = VDNS_SYNC; vdns_addr4(&dp.addrs[dp.n++], "127.0.0.1");
         vdns_reset(); vdns_enable(true); vdns_set(&dp);
         snprintf(caddr, sizeof caddr, "%s:peer.verif.test:%d", cpr, port);
